@@ -87,7 +87,7 @@ func makeKnobs(d histDesc, r *prng.R) *knobs {
 		k.Validators = 1 + r.Intn(3)
 	}
 	k.Bypass = r.Chance(35)
-	k.Mock = r.Chance(30)
+	k.Mock = r.Chance(30) && mockFlag
 	k.Huge = k.Bypass && r.Chance(70)
 	k.Twin = r.Chance(35)
 	k.VoteNoEntity = r.Chance(60)
@@ -158,6 +158,7 @@ type histResult struct {
 	txs       int
 	txFailed  int
 	outcome   string
+	finding   bool // the violation is the registered-key finding of script govweights
 	hist      map[string]int
 }
 
@@ -268,7 +269,14 @@ func newWorld(d histDesc, run *runner) (*world, error) {
 		nProps = 1
 	}
 	for i := 0; i < nProps; i++ {
-		r, err := muxdrv.NewReplica(g, muxdrv.ReplicaConfig{Name: fmt.Sprintf("p%d", i), Identity: g.Validators[i].Identity, SanityInterval: 1})
+		// supplementarysanity (a debug app) runs on the proposers, except with mock epochs:
+		// an epoch JUMP (only possible with DebugMockBackend) leaves proposals active past their
+		// closing epoch, which that app reports as a fatal sanity failure.
+		sanity := int64(1)
+		if k.Mock {
+			sanity = 0
+		}
+		r, err := muxdrv.NewReplica(g, muxdrv.ReplicaConfig{Name: fmt.Sprintf("p%d", i), Identity: g.Validators[i].Identity, SanityInterval: sanity})
 		if err != nil {
 			w.closeAll()
 			return nil, fmt.Errorf("replica: %w", err)
@@ -459,6 +467,11 @@ func (w *world) fail(h int64, what string, err error) {
 			if i := strings.Index(ln, " stack="); i > 0 {
 				ln = ln[:i]
 			}
+			if i := strings.Index(ln, "ts="); i >= 0 { // timestamps would make replays differ
+				if j := strings.Index(ln[i:], " "); j > 0 {
+					ln = ln[:i] + ln[i+j+1:]
+				}
+			}
 			if len(ln) > 500 {
 				ln = ln[:500]
 			}
@@ -477,6 +490,9 @@ func (w *world) fail(h int64, what string, err error) {
 	}
 	w.res.outcome = "VIOLATION: " + what
 	w.res.viol = &violation{What: what + ": " + detail, Case: w.d, Height: h, Detail: detail}
+	if w.d.Script == "govweights" && strings.Contains(detail, "divide shareNextProposer") {
+		w.res.finding = true
+	}
 }
 
 // step executes one block on all replicas; false = history over.
@@ -512,6 +528,17 @@ func (w *world) step(bp *blockPlan) bool {
 	if err != nil {
 		w.fail(h, "proposer failed to process its own proposal", err)
 		return false
+	}
+	if vflag {
+		var ks []string
+		for i, t := range bp.txs {
+			code := uint32(999)
+			if i < len(res.TxResults) {
+				code = res.TxResults[i].Code
+			}
+			ks = append(ks, fmt.Sprintf("%s=%d", t.kind, code))
+		}
+		logf("  h=%d proposer=%d votes=%s mis=%d txs: %s", h, bp.proposer, bp.votesTag, len(bp.mis), strings.Join(ks, ", "))
 	}
 	for i, other := range w.props {
 		if i == bp.proposer {
@@ -551,7 +578,7 @@ func (w *world) step(bp *blockPlan) bool {
 		for i, t := range bp.txs {
 			if t.garbage {
 				if i < len(res.TxResults) && res.TxResults[i].Code == 0 {
-					w.fail(h, fmt.Sprintf("malformed tx %d (%s) was accepted", i, t.kind), nil)
+					w.fail(h, fmt.Sprintf("malformed tx %d (%s) was accepted: %s", i, t.kind, hex.EncodeToString(t.raw)), nil)
 					return false
 				}
 				continue
